@@ -79,12 +79,15 @@ def main():
     n = 6000 if ck.thorough else 320
     # gen2:<p> = the OUTPUT of profile <p> compiled again (same or other options), sometimes a third time (harness/regen.py):
     # the final file must still carry ONE plan, and that plan must still cover what the passed-through Ethos-U operators touch
-    profiles = ["cpu", "mixed", "pattern", "cascade", "weights", "pattern", "gen2:cpu", "cpu", "lut", "gen2:pattern", "pattern", "elementwise",
-                "gen2:mixed"]
+    profiles = ["cpu", "mixed", "pattern", "cascade", "weights", "pattern", "cpu", "lut", "pattern", "elementwise"]
+    gen2_profiles = ["gen2:cpu", "gen2:pattern", "gen2:mixed"]       # run in addition (n // 4 compilations), the population above is unchanged
     pipeline.load_vela()
     liverange_lib.install()      # harness-side wrapping of live_range.extract_*, before the workers are forked
     outs = pipe_common.run_corpus(ck, n, profiles=profiles, want={"out_model": True, "extra": liverange_lib.extra},
                                   corpus_first=False)
+    if not ck.replay_arg:
+        outs += pipe_common.run_corpus(ck, n // 4, profiles=gen2_profiles, want={"out_model": True, "extra": liverange_lib.extra},
+                                       corpus_first=False)
     lines, owners, extra = [], [], []
     plan_reqs, plan_owner = [], []
     for o in outs:
